@@ -236,7 +236,7 @@ class World:
             from treadmill import logcontext
             self._lc = logcontext.LOCAL_
             self._lc_main = logcontext.LOCAL_.ctx
-            self.sched = _sched.Scheduler(on_exec=self.oracle.pre_op, on_enter=self._enter_task,
+            self.sched = _sched.Scheduler(on_exec=self._pre_op, on_enter=self._enter_task,
                                           on_leave=self._leave_task)
             self.srv.on_op = self._on_op
             self.srv.after_op = self._after_op
@@ -433,6 +433,11 @@ class World:
             err.vf_injected = True
             raise err
 
+    def _pre_op(self, task, client, op, path):
+        if task is not None and task.meta.get('muted_op'):
+            return
+        self.oracle.pre_op(task, client, op, path)
+
     def _on_op(self, client, op, path):
         inject = False
         if self.connloss_left > 0 and op == 'delete':
@@ -447,11 +452,12 @@ class World:
             return
         # the operation never reaches the server: the scheduling point is kept, the oracle is not told of an operation
         import kazoo.exceptions
-        on_exec, self.sched.on_exec = self.sched.on_exec, None
+        # (muted for this task only: other tasks run while this one is suspended at the scheduling point)
+        task.meta['muted_op'] = True
         try:
             self.sched.yield_point(client, op, path)
         finally:
-            self.sched.on_exec = on_exec
+            task.meta['muted_op'] = False
         self.connloss_left -= 1
         self.connloss_injected += 1
         self.count('connection_losses_injected')
